@@ -28,6 +28,24 @@ def is_mask_name(n):
     return bool(n) and re.match(r'^BVec[234]A?$', n) is not None
 
 
+def normalise_template(hexbytes, type_name):
+    """format_args template bytes with the type's own name cut out of the literal piece that carries it (the piece's length byte adjusted),
+    so that BVec3 and BVec3A templates are comparable"""
+    b = bytes.fromhex(hexbytes)
+    nm = type_name.encode()
+    i = b.find(nm)
+    while i > 0:
+        # the literal piece starts after a length byte (< 0x80) somewhere before the name
+        j = i - 1
+        while j >= 0 and not (0 < b[j] < 0x80 and j + b[j] >= i + len(nm) - 1):
+            j -= 1
+        if j < 0:
+            break
+        b = b[:j] + bytes([b[j] - len(nm)]) + b[j + 1:i] + b'<T>' + b[i + len(nm):]
+        i = b.find(nm, i + 3)
+    return b.hex()
+
+
 def mask_view(F, r, argi, tyid):
     base, by_ref = strip_ref(F, tyid)
     vi = vec_info(F, base)
@@ -51,6 +69,7 @@ def run(ctx):
         counts = {}
         cmp_types = set()
         mask_types = set()
+        fmt_templates = {}
 
         def done(rule, name, bad, it):
             counts[rule] = counts.get(rule, 0) + 1
@@ -258,6 +277,13 @@ def run(ctx):
                                 groups.setdefault(pc, []).append([int(x) for x in m])
                                 if tr == 'Display' and str(de[1]) != 'bool':
                                     bad_ty = str(de[1])
+                # the literal text around the lanes: recorded per type and compared between BVecN and BVecNA below
+                tn_ = (it.get('self_ty') or '').rsplit('::', 1)[-1]
+                for (d, descs, pc, fn) in r.effects:
+                    if d.endswith('Arguments::<\'a>::new') or d.endswith('Arguments::new') or d.endswith('::new_const'):
+                        for de in descs:
+                            if de[0] == 'constref' and len(de) > 3 and de[3]:
+                                fmt_templates.setdefault((tr, tn_), []).append((normalise_template(de[3], tn_), name, it))
                 exp = [[mv0[1]['lanes'][i][0]] for i in range(N)]
                 if not groups:
                     bad = 'no formatted lane arguments found'
@@ -338,6 +364,23 @@ def run(ctx):
                 elif extra:
                     bad = 'the hash depends on bytes that are not lanes of the mask (offset %s): equal masks can hash differently' % sorted(r.atoms[a].off for a in extra)
             done('R-MASK', name, bad, it)
+        n_tpl = 0
+        for (tr_, tn_), lst in sorted(fmt_templates.items()):
+            if not tn_.endswith('A'):
+                continue
+            ref = fmt_templates.get((tr_, tn_[:-1]))
+            for (tpl, name_, it_) in lst:
+                n_tpl += 1
+                inst = '%s (text around the lanes)' % name_
+                if not ref:
+                    ctx.unverifiable('R-MASK', cfg, inst, 'no %s implementation of %s found to compare with' % (tr_, tn_[:-1]))
+                elif all(tpl != t0 for (t0, _n, _i) in ref):
+                    ctx.violation('R-MASK', cfg, inst, {'file': it_['file'], 'line': it_['line'],
+                                  'problem': '%s prints different text around the lanes than %s (they must agree up to the type name)' % (tn_, tn_[:-1]),
+                                  'this': tpl, 'other': ref[0][0]})
+                else:
+                    ctx.holds('R-MASK', cfg, inst)
+        ctx.floor('mask format templates compared (%s)' % cfg, n_tpl, 4)
         ctx.floor('mask Hash impls (%s)' % cfg, n_hash, 5)
         ctx.floor('mask types analysed (%s)' % cfg, len(mask_types), 5)
         for k, v in sorted(counts.items()):
